@@ -191,8 +191,8 @@ REGISTRY = {
             "rule": "copy / hard_link / reflink by key and by address, checked and unchecked, to fresh and existing destinations, on pristine and damaged content; results, byte counts and destination files compared."},
     "C12": {"flavours": Q3, "suites": [("all", suite_all), ("damage", suite_damage), ("crafted", suite_crafted), ("mixed", suite_mixed)],
             "rule": "all op kinds incl. content and index damage on three flavours; each binary must match the one deterministic model step by step and tree by tree, hence each other; plus mixed-flavour programs: one cache directory shared by the sync-only, async-std and tokio binaries, every op routed to a random one of them through its sync or async entry point (writer/reader handles stay with the process that opened them)."},
-    "C05": {"flavours": Q3, "suites": [("hist", suite_hist), ("foreign", suite_foreign)],
-            "rule": "exhaustive histories over 2 keys x 2 values x {insert,remove} x {sync,async} up to length 2 (quick) / 3 (thorough) with lookups of both keys after every step, plus random histories of 3..40 ops (index::insert with random options, real writes, removes) over small and hostile keys, lookups via find/metadata/read/list; plus buckets pre-filled with interleaved records of the key and of foreign keys (as if their SHA-1 collided), foreign tombstones after the key's last write included."},
+    "C05": {"flavours": Q3, "suites": [("hist", suite_hist), ("foreign", suite_foreign), ("relist", suite_relist)],
+            "rule": "exhaustive histories over 2 keys x 2 values x {insert,remove} x {sync,async} up to length 2 (quick) / 3 (thorough) with lookups of both keys after every step, plus random histories of 3..40 ops (index::insert with random options, real writes, removes) over small and hostile keys, lookups via find/metadata/read/list; plus buckets pre-filled with interleaved records of the key and of foreign keys (as if their SHA-1 collided), foreign tombstones after the key's last write included. Plus relist programs: a lookup, then the key's bucket file is deleted (full removal / clear) and re-created by a write whose record has exactly the same length, then the lookup again in the same process."},
     "C06": {"flavours": Q3, "suites": [("damage", suite_damage), ("bitflips", suite_bitflips)],
             "rule": "buckets of 2..6 reference-written records (tombstones, foreign keys) are damaged: one record cut at every byte length, bit flips, garbage / NUL / invalid-UTF-8 / lone-CR lines, destroyed newlines, duplicated fragments; then lookups through sync and async and the listing, a further API insert, and lookups again; plus every single-bit flip of the first 80 bytes (newline, checksum, tab, start of the JSON) of the newest record (quick) / of every byte of it (thorough)."},
     "C10": {"flavours": Q2, "suites": [("ls", suite_ls), ("damage", suite_damage), ("relist", suite_relist)], "step_suites": [("fault_listing", steps.suite_fault_listing)],
